@@ -189,7 +189,11 @@ impl Encodable for SharedAccess {
         match self {
             SharedAccess::WriteAccess(recipients) => {
                 writer.write_u8(1).await?;
-                writer.write_u16(recipients.len() as u16).await?;
+                let length: u16 =
+                    recipients.len().try_into().map_err(|_| {
+                        Error::other("too many shared access recipients")
+                    })?;
+                writer.write_u16(length).await?;
                 for recipient in recipients {
                     writer.write_string(recipient).await?;
                 }
